@@ -66,6 +66,18 @@ def _empty_label(o):
     return z3.Or(*conds) if conds else False
 
 
+# classes whose parser returns naive datetimes (datetime.utcfromtimestamp); every other parser returns aware UTC values
+PARSED_NAIVE = ('TlsHandshakeHelloRandom',)
+
+
+def w_datetime_awareness():
+    import datetime
+    from cryptoparser.dnsrec.record import DnsRecordRrsig
+    from cryptodatahub.dnsrec.algorithm import DnsRrType, DnsSecAlgorithm
+    t = datetime.datetime(2021, 3, 4, 5, 6, 7)
+    return _rt(DnsRecordRrsig(DnsRrType.A, DnsSecAlgorithm.RSASHA256, 0, 0, t, t, 0, 'a', b'\x02' * 4))
+
+
 REGIONS = {
     'dns-name-empty-label': (('DnsNameUncompressed',), _empty_label),
     'tpkt-version-not-3': (('TPKT',), _tpkt),
@@ -99,6 +111,10 @@ def exclude(P, obj, clause=None):
         if id(o) in seen:
             return
         seen.add(id(o))
+        if isinstance(o, V.SObj) and clause is None and 'datetime-awareness' in listed:
+            for v in o.f.values():
+                if isinstance(v, V.SDateTime) and bool(v.aware) != (o.cls.__name__ not in PARSED_NAIVE):
+                    raise E.PathEnd()           # listed finding: a datetime of the other kind than the parser returns
         if isinstance(o, V.SObj):
             for name, ent in REGIONS.items():
                 classes, pred = ent[0], ent[1]
@@ -198,6 +214,7 @@ def w_cotp():
 
 
 WITNESSES = {
+    'datetime-awareness': w_datetime_awareness,
     'dns-name-empty-label': w_empty_label,
     'cotp-reference-order': w_cotp,
     'tpkt-version-not-3': w_tpkt,
